@@ -696,7 +696,7 @@ func wrapReflected(c px.Context, vr reflect.Value) (pv px.Value) {
 
 	// Check for nil
 	switch vr.Kind() {
-	case reflect.Ptr, reflect.Slice, reflect.Array, reflect.Map, reflect.Interface:
+	case reflect.Ptr, reflect.Slice, reflect.Map, reflect.Interface:
 		if vr.IsNil() {
 			return undef
 		}
